@@ -59,6 +59,7 @@ type livePeer struct {
 	// node is in sync on the connection; getdata(tx) requests are recorded with their arrival time
 	invQueue [][]bitcoin.Hash32
 	txReqs   []liveTxReq
+	wlocks   map[net.Conn]*sync.Mutex // one writer at a time per connection
 }
 
 type liveTxReq struct {
@@ -93,11 +94,29 @@ func (lp *livePeer) acceptLoop() {
 	}
 }
 
-func (lp *livePeer) write(c net.Conn, msgs []peerMsg) {
+// write sends the messages on c; the per-peer write lock keeps the two parts of a message (header,
+// payload) of one goroutine from interleaving with another goroutine's.
+func (lp *livePeer) write(c net.Conn, msgs []peerMsg) bool {
+	lp.mu.Lock()
+	if lp.wlocks == nil {
+		lp.wlocks = map[net.Conn]*sync.Mutex{}
+	}
+	wl := lp.wlocks[c]
+	if wl == nil {
+		wl = &sync.Mutex{}
+		lp.wlocks[c] = wl
+	}
+	lp.mu.Unlock()
+	wl.Lock()
+	defer wl.Unlock()
+	return lp.writeLocked(c, msgs)
+}
+
+func (lp *livePeer) writeLocked(c net.Conn, msgs []peerMsg) bool {
 	for _, pm := range msgs {
 		_ = c.SetWriteDeadline(time.Now().Add(3 * time.Second))
 		if _, err := wire.WriteMessageN(c, pm.msg, wire.ProtocolVersion, wire.BitcoinNet(bitcoin.MainNet)); err != nil {
-			return
+			return false
 		}
 		if pm.tag == "block" {
 			lp.mu.Lock()
@@ -110,6 +129,7 @@ func (lp *livePeer) write(c net.Conn, msgs []peerMsg) {
 			}
 		}
 	}
+	return true
 }
 
 func (lp *livePeer) serve(c net.Conn, idx int) {
@@ -134,19 +154,28 @@ func (lp *livePeer) serve(c net.Conn, idx int) {
 				_ = inv.AddInvVect(wire.NewInvVect(wire.InvTypeTx, &h))
 				extra = append(extra, peerMsg{msg: inv, tag: "inv"})
 			}
-			if len(lp.invQueue) > 0 && lp.fp.sendHeaders && idx == len(lp.conns)-1 {
+			announced := false
+			if len(lp.invQueue) > 0 && lp.fp.sendHeaders && idx == len(lp.conns)-1 && !silent {
 				inv := wire.NewMsgInv()
 				for k := range lp.invQueue[0] {
 					_ = inv.AddInvVect(wire.NewInvVect(wire.InvTypeTx, &lp.invQueue[0][k]))
 				}
-				lp.invQueue = lp.invQueue[1:]
 				extra = append(extra, peerMsg{msg: inv, tag: "inv"})
+				announced = true
 			}
 			lp.mu.Unlock()
 			if silent {
 				continue
 			}
-			lp.write(c, append(extra, peerMsg{msg: wire.NewMsgPing(i), tag: "ping"}))
+			if lp.write(c, append(extra, peerMsg{msg: wire.NewMsgPing(i), tag: "ping"})) && announced {
+				// taken off the queue only once it was written: a connection that died meanwhile has
+				// announced nothing
+				lp.mu.Lock()
+				if len(lp.invQueue) > 0 {
+					lp.invQueue = lp.invQueue[1:]
+				}
+				lp.mu.Unlock()
+			}
 		}
 	}()
 	for {
